@@ -9,7 +9,7 @@ sys.path.insert(0, ROOT)
 sys.path.insert(0, os.path.join(ROOT, "cgv", "shim"))
 
 NOT_APPLICABLE = {
-    "C19": "Side-effect freedom / absence of aliasing is about object identity and heap state before and after a call; there is no value for a solver to range over, and a symbolic pre-state adds nothing (a missing copy shows on any input). Deciding it needs snapshot comparison of concrete runs, i.e. a different technique family (DESIGN.md section 6).",
+    "C19": "Side-effect freedom / absence of aliasing is about object identity and heap state before and after a call; there is no value for a solver to range over, and a symbolic pre-state adds nothing (a missing copy shows on any input). Deciding it needs snapshot comparison of concrete runs, i.e. a different technique family (DESIGN.md section 6). Not claimed; as hygiene only, every E1 harness asserts concretely that the circuit it passed is unchanged (ctx.unchanged) and the E2 checks of the read-only methods and lint require an empty write log on every path.",
 }
 
 
